@@ -321,6 +321,7 @@ func runC18(env *Env) {
 			}
 		}
 	}
+	c18OwnVariables(env, rep)
 	c18LoopedCatch(env, rep, 0, 4, true)
 	c18LoopedCatch(env, rep, 20000, map[bool]int{false: 12, true: 120}[env.Thorough()], true)
 	c18LoopedCatch(env, rep, 0, map[bool]int{false: 40, true: 400}[env.Thorough()], false)
@@ -508,5 +509,63 @@ func c18LoopedCatch(env *Env, rep *Report, pad, rounds int, settled bool) {
 			rep.Violate("C18-message-flow", cs, problem+"; log: "+tailStr(logString(col.Log()), 1500))
 		}
 		cancel()
+	}
+}
+
+// c18OwnVariables: the processes of a set started with WithVariables each have their own variables ("each behaves as
+// it would alone"): process 0 stores flag = true as a task result; process 1, whose gateway reads flag afterwards,
+// still sees the value the set was started with.
+func c18OwnVariables(env *Env, rep *Report) {
+	cs := "two executable processes started with flag = false; process 0 stores flag = true, then process 1's gateway reads flag"
+	env.Current(cs)
+	p0 := &Prog{}
+	p0.Node("start", "s0")
+	t0 := p0.Node("task", "T0")
+	t0.Results = []string{"flag"}
+	p0.Node("end", "e0")
+	p0.Flow("s0", "T0", "")
+	p0.Flow("T0", "e0", "")
+	p1 := &Prog{nflow: 300}
+	p1.Node("start", "s1")
+	p1.Node("task", "R1")
+	x := p1.Node("xor", "X1")
+	p1.Node("task", "Byes")
+	p1.Node("task", "Bno")
+	p1.Node("end", "e1")
+	p1.Flow("s1", "R1", "")
+	p1.Flow("R1", "X1", "")
+	p1.Flow("X1", "Byes", "flag")
+	x.Default = p1.Flow("X1", "Bno", "").ID
+	p1.Flow("Byes", "e1", "")
+	p1.Flow("Bno", "e1", "")
+	defs, err := ParseDefs(SetXML([]*Prog{p0, p1}, []bool{true, true}, nil, ""))
+	must(err)
+	ctx, cancel := context.WithCancel(context.Background())
+	defer cancel()
+	tr := tracing.NewTracer(ctx)
+	col := NewCollector(tr)
+	eng := bpmn.NewEngine(bpmn.WithEngineContext(ctx))
+	ps, err := eng.NewProcessSet(defs, bpmn.WithContext(ctx), bpmn.WithTracer(tr), bpmn.WithVariables(map[string]any{"flag": false}))
+	must(err)
+	must(ps.StartAll(ctx))
+	rep.Evaluations++
+	rep.Nontrivial++
+	rep.Count("own_variables")
+	problem := ""
+	if !col.WaitUntil(tmoStep, func(l []Ev) bool { return countEv(l, "task", "R1") >= 1 }) {
+		problem = "R1 not requested"
+	} else if !col.Answer("T0", tmoStep, bpmn.DoWithResults(map[string]any{"flag": true})) {
+		problem = "T0 not requested"
+	} else if !col.WaitUntil(tmoStep, func(l []Ev) bool { return countEv(l, "visit", "e0") >= 1 }) {
+		problem = "process 0 did not reach its end"
+	} else if !col.Answer("R1", tmoStep) {
+		problem = "R1 not pending"
+	} else if !col.WaitUntil(tmoStep, func(l []Ev) bool { return countEv(l, "task", "Byes")+countEv(l, "task", "Bno") >= 1 }) {
+		problem = "process 1's gateway routed nowhere"
+	} else if countEv(col.Log(), "task", "Bno") != 1 {
+		problem = "process 1 was routed by the value process 0 stored (Byes requested), not by its own flag = false"
+	}
+	if problem != "" {
+		rep.Violate("C18-stuck", cs, problem+"; log: "+tailStr(logString(col.Log()), 1200))
 	}
 }
